@@ -108,6 +108,20 @@ def r1(F, R):
         else:
             for pr in probs:
                 R.bad("C19-R1", "%s:%s" % (key, pr.split(":")[0][:60]), site, "serialiser and deserialiser of %s disagree: %s" % (adt_path, pr))
+    # no field goes through a custom function on its way in or out (`deserialize_with`, `serialize_with`, `with`): the derive then emits a
+    # private `__DeserializeWith` / `__SerializeWith` wrapper type below the impl; a normalising reader (clamp, fold, default) changes values
+    for adt_path in sorted(seen):
+        short = strip_generics(adt_path)
+        wrappers = sorted(p_ for p_ in F.adts if ("__DeserializeWith" in p_ or "__SerializeWith" in p_) and (" for " + short) in strip_generics(p_).replace("<", " ").replace(">", " ") + " ")
+        if not wrappers:
+            wrappers = sorted(p_ for p_ in F.adts if ("__DeserializeWith" in p_ or "__SerializeWith" in p_) and ("for " + adt_path.split("<")[0]) in p_)
+        key = "%s:plain-fields" % adt_path
+        site = "%s @%s" % (adt_path, loc(F.adts[adt_path].get("span")))
+        if wrappers:
+            R.bad("C19-R1", key, site, "%d field(s) of %s are (de)serialised through a custom function (%s): the value read back need not be the value written" % (
+                len(wrappers), adt_path, "deserialize_with" if any("__DeserializeWith" in w for w in wrappers) else "serialize_with"))
+        else:
+            R.ok("C19-R1", key, site, "every field uses the Serialize/Deserialize impl of its type")
     R.info("C19-R1", "closure: %s" % {k: sorted(v) for k, v in seen.items()})
     R.floor("C19-R1", 30)
     return seen
